@@ -158,6 +158,8 @@ impl Database {
         // time you acquire the lock?)
         let info = names.get(query)?;
         let mut zones = self.zones.write().unwrap();
+        #[cfg(jiff_verif)]
+        crate::__verif::emit("slow_begin", query, 0, 0);
         let ttl = zones.ttl;
         match zones.get_zone_index(query) {
             Ok(i) => {
@@ -465,6 +467,8 @@ impl ZoneInfoNames {
             drop(inner); // unlock
         }
         let mut inner = self.inner.write().unwrap();
+        #[cfg(jiff_verif)]
+        crate::__verif::emit("names_w_begin", query, 0, 0);
         #[cfg(jiff_verif)]
         let refreshed = inner.expiration.is_expired();
         inner.attempt_refresh();
